@@ -2458,9 +2458,9 @@ def child_sym(sym, clo):
     return Sym(cb, {1: clo}, crate=sym.crate, depth=sym.depth + 1)
 
 
-def collect_bins(sym, op, seen=None):
-    """(a, b, where) for every `a op b` computed in sym's body or in a closure created in it (closure
-    bodies are evaluated with their captured variables bound to the creating function's terms)."""
+def collect_bins(sym, op, seen=None, deep=True):
+    """(a, b, where) for every `a op b` computed in sym's body or (deep) in a closure created in it
+    (closure bodies are evaluated with their captured variables bound to the creating function's terms)."""
     seen = set() if seen is None else seen
     out = []
     for bi, bb in enumerate(sym.blocks):
@@ -2478,6 +2478,8 @@ def collect_bins(sym, op, seen=None):
             m = _re.search(r"::(?:checked|wrapping|saturating|overflowing|strict|unchecked)_(add|sub)$", c)
             if m and {"add": "Add", "sub": "Sub"}[m.group(1)] == op and "<impl " in c:
                 out.append((sym.operand(t["args"][0]), sym.operand(t["args"][1]), bb.get("span")))
+    if not deep:
+        return out
     for clo in closure_terms(sym):
         if clo in seen:
             continue
@@ -2635,14 +2637,7 @@ def check_rshift(ctx, prog):
         the time a state was classified), possibly through a table that was filled with such values"""
         return deep_has(sym, t, lambda y: isinstance(y, tuple) and len(y) == 4 and y[0] == "call" and y[3]
                         and contains(y[3][0], lambda z: z in ES_all))
-    subs_body = []
-    for bi, bb in enumerate(blocks):
-        if bb["cleanup"]:
-            continue
-        for st in bb["st"]:
-            rv = st.get("rv")
-            if rv and rv["k"] == "bin" and rv["op"].replace("WithOverflow", "") == "Sub":
-                subs_body.append((sym.operand(rv["a"]), sym.operand(rv["b"]), bb.get("span")))
+    subs_body = collect_bins(sym, "Sub", deep=False)
     subs_all = collect_bins(sym, "Sub")
     # index subtractions only (pointer-alignment checks of debug builds subtract constants)
     subs_all = [x for x in subs_all if not (x[0][0] == "const" and x[1][0] == "const")]
